@@ -559,9 +559,49 @@ func sigtermTrial(r *vh.Run, bin string, i int) {
 	}
 	delay := time.Duration(5+rng.Intn(250)) * time.Millisecond
 	time.Sleep(delay)
+	// one more client whose upload straddles the signal: half of the body before it, the rest a moment after.  A
+	// graceful stop lets the request finish (then it is an acknowledged push like any other) or breaks it - but it
+	// leaves no upload file behind either way
+	signalled := make(chan struct{})
+	straddle := i%2 == 1
+	if straddle {
+		sb := []byte(fmt.Sprintf("straddling upload %d: first half | second half", i))
+		sd := vh.DigestOf("sha256", sb)
+		pr, pw := io.Pipe()
+		wg.Add(2)
+		go func() {
+			defer wg.Done()
+			rq, _ := http.NewRequest("POST", fmt.Sprintf("http://127.0.0.1:%d/v2/s/blobs/uploads/?digest=%s", p.port, sd), pr)
+			rq.ContentLength = int64(len(sb))
+			rs, err := client.Do(rq)
+			if err != nil {
+				return
+			}
+			_, _ = io.ReadAll(rs.Body)
+			_ = rs.Body.Close()
+			if rs.StatusCode == 201 {
+				mu.Lock()
+				acked = append(acked, ack{"", sd, sb})
+				mu.Unlock()
+				r.Count("straddling_uploads_acknowledged", 1)
+			}
+		}()
+		go func() {
+			defer wg.Done()
+			_, _ = pw.Write(sb[:len(sb)/2])
+			<-signalled
+			time.Sleep(30 * time.Millisecond)
+			_, _ = pw.Write(sb[len(sb)/2:])
+			_ = pw.Close()
+		}()
+		time.Sleep(20 * time.Millisecond) // let the first half arrive
+		r.Count("straddling_uploads", 1)
+	}
 	mu.Lock()
 	nAtSignal := len(acked)
 	mu.Unlock()
+	_ = p.cmd.Process.Signal(syscall.SIGTERM)
+	close(signalled)
 	ok, dump := p.term(30 * time.Second)
 	stop.Store(true)
 	wg.Wait()
@@ -576,6 +616,11 @@ func sigtermTrial(r *vh.Run, bin string, i int) {
 	}
 	if pr := vh.ValidateLayout(filepath.Join(root, "s")); len(pr) > 0 {
 		r.Violation("sigterm:layout", "after SIGTERM the directory is not a valid layout: "+strings.Join(pr, "; "), wit)
+		return
+	}
+	if ents, err := os.ReadDir(filepath.Join(root, "s", "_uploads")); err == nil && len(ents) > 0 {
+		wit["upload_straddled_the_signal"] = straddle
+		r.Violation("sigterm:upload-file-left", fmt.Sprintf("after SIGTERM and the end of the process %d file(s) of upload sessions remain under _uploads: the store was not closed", len(ents)), wit)
 		return
 	}
 	p2, err := launch(bin, "--dir", root, "--gc-frequency", "-1s")
@@ -882,5 +927,5 @@ func main() {
 	r.Require("acknowledged_pushes_verified", int64(nsig*5))
 	var _ = json.Marshal
 	var _ = rand.Int
-	r.Finish("(a) SetDefaults on random configurations (each pointer field nil/true/false, numeric fields zero / negative / explicit); (b) in-process behaviour table over all 32 switch combinations x {directory, memory}; (c) the built binary with random (thorough: all) switch combinations x store type x warning lists, probed over loopback HTTP; (d) rate limits 1/2/5/8 with bursts from a fresh address, an interleaved second address, X-Forwarded-For or RemoteAddr, window reset; (e) SIGTERM 5-255 ms into a 3-client push workload, layout validation, restart, read-back of every acknowledged push; (f) the collection flags of serve: all 8 combinations of --gc-untagged / --gc-referrer-dangling / --gc-referrer-subject with grace off compared, after observed complete collections, with an in-process server given the equivalent config.Config on a copy of the directory; a case is one trial, distinct = (part, cell) combinations", "cases", "cells")
+	r.Finish("(a) SetDefaults on random configurations (each pointer field nil/true/false, numeric fields zero / negative / explicit); (b) in-process behaviour table over all 32 switch combinations x {directory, memory}; (c) the built binary with random (thorough: all) switch combinations x store type x warning lists, probed over loopback HTTP; (d) rate limits 1/2/5/8 with bursts from a fresh address, an interleaved second address, X-Forwarded-For or RemoteAddr, window reset; (e) SIGTERM 5-255 ms into a 3-client push workload, in half of the trials with one more upload whose body straddles the signal, layout validation, restart, read-back of every acknowledged push; (f) the collection flags of serve: all 8 combinations of --gc-untagged / --gc-referrer-dangling / --gc-referrer-subject with grace off compared, after observed complete collections, with an in-process server given the equivalent config.Config on a copy of the directory; a case is one trial, distinct = (part, cell) combinations", "cases", "cells")
 }
